@@ -156,7 +156,22 @@ func opMergeSeq(_ *World, a []string) string {
 		accs[i] = oa
 	}
 	clones := make([]*vmcommon.OutputAccount, len(a))
+	// every merged-in account's transfer list gets spare capacity holding sentinels: a slice with room behind it, as the
+	// slices of real callers have; "never mutates the account merged in" includes the memory behind its slice (taking the
+	// slice over and appending to it later would write there)
+	const spare = 3
+	backing := make([][]vmcommon.OutputTransfer, len(a))
 	for i := 1; i < len(accs); i++ {
+		n := len(accs[i].OutputTransfers)
+		if n > 0 {
+			full := make([]vmcommon.OutputTransfer, n+spare)
+			copy(full, accs[i].OutputTransfers)
+			for j := n; j < n+spare; j++ {
+				full[j] = vmcommon.OutputTransfer{Value: big.NewInt(-777 - int64(j))}
+			}
+			accs[i].OutputTransfers = full[:n]
+			backing[i] = full
+		}
 		clones[i] = cloneOA(accs[i])
 	}
 	for i := 1; i < len(accs); i++ {
@@ -164,7 +179,16 @@ func opMergeSeq(_ *World, a []string) string {
 	}
 	bits := ""
 	for i := 1; i < len(accs); i++ {
-		if equalOA(accs[i], clones[i]) {
+		same := equalOA(accs[i], clones[i])
+		if full := backing[i]; full != nil {
+			n := len(full) - spare
+			for j := n; j < n+spare; j++ {
+				if full[j].Value == nil || full[j].Value.Cmp(big.NewInt(-777-int64(j))) != 0 {
+					same = false
+				}
+			}
+		}
+		if same {
 			bits += "1"
 		} else {
 			bits += "0"
